@@ -516,12 +516,14 @@ def assemble(repo, spec, rows=None, canary=None, opts=None):
                             i -= 1
                         ed.insert(i + 1, '\n' + t, prio=0)
                     else:
-                        m = re.match(r'loop\s+(\d+)\s+(start|end)$', w)
+                        m = re.match(r'loop\s+(\d+)\s+(start|end|before)$', w)
                         if not m: raise ToolError('bad proof position %r for %s' % (w, path))
                         k = int(m.group(1))
                         if k >= len(loops):
                             raise ToolError('lost anchor: %s has no loop %d' % (path, k))
-                        if m.group(2) == 'start':
+                        if m.group(2) == 'before':
+                            ed.insert(loops[k]['kw'], t + indent + '    ', prio=-20)
+                        elif m.group(2) == 'start':
                             ed.insert(loops[k]['body_open'] + 1, '\n' + t, prio=0)
                         else:
                             ed.insert(loops[k]['body_close'], t, prio=0)
@@ -613,7 +615,8 @@ def assemble(repo, spec, rows=None, canary=None, opts=None):
             text += '\n'; lm.append(None)
         emit('pub mod %s {\n' % mod)
         emit('#[allow(unused_imports)] use vstd::prelude::*;\n#[allow(unused_imports)] use crate::spec::*;\n')
-        emit('broadcast use {crate::spec::group_float_total, crate::tstd::group_tstd, crate::spec::group_clone, vstd::std_specs::hash::group_hash_axioms};\n')
+        emit('broadcast use {crate::spec::group_float_total, crate::tstd::group_tstd, crate::spec::group_clone, vstd::std_specs::hash::group_hash_axioms%s};\n'
+             % ('' if mod == 'buffer' else ', crate::push::buffer::PushBuffer::lemma_live_len, crate::push::buffer::PushBuffer::lemma_wf_bounds'))
         if uses_rand:
             emit('#[allow(unused_imports)] use crate::rand_stub as rand;\n')
         emit(text, lm, mod)
